@@ -179,6 +179,9 @@ func runProperty(root, repo string, pc *PropConfig, tier string, seed int, overl
 		return ro
 	}
 	ro.loadS = time.Since(t0).Seconds()
+	for _, d := range eng.drift {
+		ro.notes = append(ro.notes, "NOTE contract anchor lost: "+d)
+	}
 	specs, err := selectSpecs(eng, pc)
 	if err != nil {
 		ro.undecided = err.Error()
